@@ -900,6 +900,44 @@ func (p *Core) createResources(initial bool) error {
 	return nil
 }
 
+// closeAPI closes the API server.
+// api.Close() waits for the request handlers that are still running, and a handler
+// that is waiting to hand a configuration request to this routine would wait forever,
+// therefore these requests are refused until the server is closed.
+func (p *Core) closeAPI() {
+	closed := make(chan struct{})
+	go func() {
+		defer close(closed)
+		p.api.Close()
+	}()
+
+	for {
+		select {
+		case req := <-p.chAPIConfigGlobalPatch:
+			req.res <- fmt.Errorf("terminated")
+
+		case req := <-p.chAPIConfigPathDefaultsPatch:
+			req.res <- fmt.Errorf("terminated")
+
+		case req := <-p.chAPIConfigPathAdd:
+			req.res <- fmt.Errorf("terminated")
+
+		case req := <-p.chAPIConfigPathPatch:
+			req.res <- fmt.Errorf("terminated")
+
+		case req := <-p.chAPIConfigPathReplace:
+			req.res <- fmt.Errorf("terminated")
+
+		case req := <-p.chAPIConfigPathDelete:
+			req.res <- fmt.Errorf("terminated")
+
+		case <-closed:
+			p.api = nil
+			return
+		}
+	}
+}
+
 func (p *Core) closeResources(newConf *conf.Conf) {
 	currentConf := p.conf.Load()
 
@@ -1192,8 +1230,7 @@ func (p *Core) closeResources(newConf *conf.Conf) {
 
 	if p.api != nil {
 		if closeAPI {
-			p.api.Close()
-			p.api = nil
+			p.closeAPI()
 		}
 	}
 
